@@ -42,6 +42,7 @@ def expected_entry(node, typed, tagged=False):
     e = _expected_entry(node, typed)
     if tagged and isinstance(e, dict):
         e["tag"] = "o" if isinstance(node.data, sergen.Obj) else "s"
+        e["nest"] = dict(sergen.NEST)
     return e
 
 
@@ -280,6 +281,10 @@ def model_tree(rng, typed, dk="child"):
     return rec(f)
 
 
+#: inner keys that look like long keys, short keys and mapped values of the documents of this run
+NESTED_INFO = {"S": "inner-S", "str": "inner", "kind": 0, "K": 1, "D": 2, "data_id": "x", "s": 3, "i": 4, "k": 0}
+
+
 def encode(model, rng, typed, variant, dk="child"):
     """Independent encoder of the documented layout."""
     key_map = {}
@@ -321,6 +326,8 @@ def encode(model, rng, typed, variant, dk="child"):
                     if value_map and "kind" in entry:
                         entry["kind"] = value_map["kind"].index(entry["kind"])
                     entry = {key_map.get(k, k): v for k, v in entry.items()}
+                    if variant.get("nested"):
+                        entry["info"] = dict(NESTED_INFO)  # a structured user value: nothing inside it is mapped
                     if not key_map and variant.get("user_short_keys"):
                         # no key map declared: keys that merely look like the default short keys are ordinary user keys
                         # (the same for the short keys that *other* documents of this run declare: S, D, K)
@@ -381,13 +388,16 @@ def run_reader(case, res):
             has_ids = '"data_id"' in text or '"D"' in text
             kw = {}
             seen_user = []
-            if has_ids or not typed or variant.get("user_short_keys"):
+            seen_info = []
+            if has_ids or not typed or variant.get("user_short_keys") or variant.get("nested"):
                 mapper_calls = []
 
                 def _m(parent, data):
                     mapper_calls.append(type(data).__name__)
                     if variant.get("user_short_keys") and not variant["key_map"] and "s" in data:
                         seen_user.append((data.get("s"), data.get("i"), data.get("k")))
+                    if "info" in data or variant.get("nested"):
+                        seen_info.append(data.get("info"))
                     if variant.get("consuming"):
                         # a mapper may take the entry apart while it builds the object
                         data.pop("kind", None)
@@ -411,8 +421,16 @@ def run_reader(case, res):
                     tmpd = tempfile.mkdtemp(prefix="vmon-c12-")
                     try:
                         pth = os.path.join(tmpd, "doc.nutree")
-                        with open(pth, "w", encoding="utf8") as fpw:
-                            fpw.write(text)
+                        if case["seed"] % 3 == 0:
+                            # "optional zipping": a zip container around the one document, produced by an ordinary zip tool
+                            import zipfile
+
+                            with zipfile.ZipFile(pth, "w", compression=zipfile.ZIP_DEFLATED) as zf:
+                                zf.writestr("export-2024.json", text)
+                            res.count("reader_docs_zipped_by_other_means")
+                        else:
+                            with open(pth, "w", encoding="utf8") as fpw:
+                                fpw.write(text)
                         t = cls.load(pth, file_meta=fmeta, **kw)
                     finally:
                         shutil.rmtree(tmpd, ignore_errors=True)
@@ -429,6 +447,9 @@ def run_reader(case, res):
                 exp = model_shape(model)
                 if got != exp:
                     bad.append(f"loaded tree {got} differs from the described tree {exp}")
+                if any(x != NESTED_INFO for x in seen_info):
+                    bad.append(f"a structured value of an entry reached the mapper altered: {[x for x in seen_info if x != NESTED_INFO][:1]}, "
+                               f"the document says {NESTED_INFO}")
                 if any(u != ("user-s", "user-i", "user-k") for u in seen_user):
                     bad.append(f"user keys s/i/k of a document without $key_map reached the mapper as {seen_user[:2]}")
                 n_dict_entries = sum(1 for e in doc["nodes"] if isinstance(e[1], dict))
@@ -619,7 +640,7 @@ def run_shard(spec, res):
             typed = rng.random() < 0.5
             variant = {"key_map": rng.choice([False, True, "partial"]), "value_map": rng.random() < 0.5, "refs": rng.random() < 0.7,
                        "plain_str": rng.random() < 0.5, "omit_default_kind": rng.random() < 0.3, "generator": rng.choice(GENERATORS),
-                       "user_meta": rng.random() < 0.5, "user_short_keys": rng.random() < 0.4, "via_path": rng.random() < 0.3, "typed_plain_str": rng.random() < 0.5, "consuming": rng.random() < 0.35, "subclass": rng.random() < 0.35}
+                       "user_meta": rng.random() < 0.5, "user_short_keys": rng.random() < 0.4, "via_path": rng.random() < 0.3, "typed_plain_str": rng.random() < 0.5, "consuming": rng.random() < 0.35, "subclass": rng.random() < 0.35, "nested": rng.random() < 0.4}
             run_case({"kind": "reader", "seed": rng.randrange(10**9), "typed": typed, "variant": variant}, res)
             if res.expired():
                 break
